@@ -72,6 +72,23 @@ func followUps(c *Collector, r *Rng, kind string, data []byte, d *decoded) {
 		op, obs, _, _, p = execCsign0(sg, par, ext)
 		panicFail("Countersign0", p)
 		addCase(c, "followup/countersign0-signmsg", op, obs, true)
+		// every signature of the decoded message as the parent of a countersignature; no model case is added for
+		// a nil element (the decoder must not have produced one: judged by C05), the call just must not panic
+		for _, sgn := range d.sm.Signatures {
+			var parent any = sgn
+			p, _ := protect(func() {
+				cose.Countersign0(nil, sg, parent, ext)
+				cose.VerifyCountersign0(vf, parent, ext, []byte{1})
+				cs := cose.NewCountersignature()
+				cs.Sign(nil, sg, parent, ext)
+				cs.Signature = []byte{1}
+				cs.Verify(vf, parent, ext)
+				if sgn != nil {
+					sgn.MarshalCBOR()
+				}
+			})
+			panicFail("countersigning a decoded COSE_Signature", p)
+		}
 	case d.key != nil:
 		op, obs, _, _, p := execKeyPublic(d.key)
 		panicFail("Key.PublicKey", p)
@@ -140,6 +157,7 @@ func runC06(c *Collector, r *Rng, thorough bool) {
 	for _, cs := range []struct{ kind, hex string }{
 		{"DProt", "43a11060"}, {"DUnprot", "a11060"}, {"DProt", "43a10360"}, {"DUnprot", "a10360"}, {"DSign1", "d28443a11060a0f64100"},
 		{"DSign1U", "8443a11060a0f64100"}, {"DSignature", "8343a11060a04100"}, {"DSignMsg", "d8628443a11060a0f6818340a04100"},
+		{"DSignMsg", "d8628440a043666f6f81f6"}, {"DSignMsg", "d8628440a043666f6f828340a04101f7"}, {"DSignMsg", "d8628440a043666f6f82f68340a04101"},
 		{"DProt", "45a1036161"}, {"DProt", "44a1106120"},
 		{"DKey", "a20102206161"}, {"DKey", "a201022061"}, {"DKey", "a3010120062358" + "40" + zeros(64)},
 		{"DKey", "a30101200623" + "50" + zeros(16)}, {"DKey", "a3010120062358" + "21" + zeros(33)},
